@@ -141,6 +141,11 @@ func scenarioSwitches(c *vrun.Ctx) {
 				if problem != "" {
 					c.SetCase(fmt.Sprintf("%s %v %s", s.name, h, be))
 					c.Violation("C19/switches/request-path-ignores-setting/"+s.name, problem+fmt.Sprintf(" | history %v backend %s", h, be), nil)
+					// the same observation under the property whose behaviour the switch selects ("under every
+					// cache_policy configuration, at any point of a request history")
+					if own := map[string]string{"proxy.cache_policy.ignore_cache_control": "C04", "proxy.cache_policy.force_default_max_age": "C03", "proxy.retry_on_invalid_range": "C07"}[s.name]; own != "" {
+						c.Violation(own+"/switches/behaviour-of-the-other-setting/"+s.name, problem+fmt.Sprintf(" | history %v backend %s", h, be), nil)
+					}
 				}
 			}
 		}
